@@ -126,6 +126,8 @@ def bsrc(e):
     if k == "lst":
         return "[%s]" % bsrc(e["a"])
     if k == "agg":
+        if e["f"] in ("eq", "lt"):        # two separately built copies compared with each other
+            return "(%s %s %s)" % (bsrc(e["a"]), {"eq": "==", "lt": "<"}[e["f"]], bsrc(e["a"]))
         return "sum(%s, [])" % bsrc(e["a"]) if e["f"] == "sumcat" else "%s(%s)" % (e["f"], bsrc(e["a"]))
     raise ValueError(k)
 
